@@ -258,6 +258,11 @@ class Models:
             return [Res("ok", st, self.class_of(eng, st, v))]
         if name == "__dict__":
             return [Res("ok", st, PInstDict(a_of(v)))]
+        h = self.attr_hooks.get(("pre", name))
+        if h is not None:
+            r = h(eng, st, v, fx)          # a contract module's model of this attribute takes precedence
+            if r is not None:
+                return r
         k = eng.static_class(st, v)
         if k is not None:
             ci = eng.class_info(k)
@@ -483,9 +488,11 @@ class Models:
             raise Unsupported("getitem on %r" % (obj,))
         idx = eng.to_val(st, idx)
         out = []
-        for s2, k in self.kind_split(eng, st, obj, ["list", "tuple", "dict"]):
+        for s2, k in self.kind_split(eng, st, obj, ["list", "tuple", "dict", "set"]):
             a = a_of(obj)
-            if k in ("list", "tuple"):
+            if k == "set":
+                out.append(eng.exc(s2, "TypeError", note="'set' object is not subscriptable"))
+            elif k in ("list", "tuple"):
                 for s3, kk in self.kind_split(eng, s2, idx, ["slice"]):
                     if kk == "slice":
                         out.extend(self.list_slice(eng, s3, a, idx, k))
